@@ -209,12 +209,12 @@ func ruleC07_4(c *Ctx) {
 						return false
 					}
 				case *ssa.Call:
-					if y.Call.IsInvoke() && y.Call.Method.Name() == "URLKey" {
+					if y.Call.IsInvoke() && isURLKeyerMethod(&y.Call) {
 						got.urlKey = true
 						return false
 					}
 				case *ssa.UnOp:
-					if fa, ok := y.X.(*ssa.FieldAddr); ok && isPtrToNamed(fa.X.Type(), c.A.RefT) && fieldName(fa.X.Type(), fa.Field) == "ResponseID" {
+					if fa, ok := y.X.(*ssa.FieldAddr); ok && c.An.IsRefIDField(fa) {
 						// which index does the ref come from: the invalidator's parameter, or an index read for the location target
 						fromRead := c.An.dependsOnCallFull(fa.X, func(cc *ssa.Call) bool {
 							for _, cal := range c.P.Callees(cc) {
@@ -324,7 +324,7 @@ func ruleC07_4(c *Ctx) {
 			}
 			for _, a := range cc.Args {
 				if c.An.sameCanon(a, key) && isStringType(a.Type()) && !cc.IsInvoke() || (cc.IsInvoke() && cc.Method.Name() == "Delete" && c.An.sameCanon(a, key)) {
-					if instrReaches(in, read) && !instrReaches(read, in) {
+					if instrDominates(in, read) {
 						bad = c.P.InstrPos(in) + ": the key is passed to `" + in.String() + "` before the index stored under it is read"
 					}
 				}
@@ -351,7 +351,7 @@ func ruleC07_4(c *Ctx) {
 		live := false
 		pr.LiveInstrs(func(in ssa.Instruction) {
 			call := callOf(in)
-			if call != nil && call.IsInvoke() && call.Method.Name() == "URLKey" {
+			if call != nil && call.IsInvoke() && isURLKeyerMethod(call) {
 				live = true
 			}
 			if c.An.CallsRole(in, "readIndex") || c.An.CallsRole(in, "deleteKey") {
@@ -427,4 +427,20 @@ func ruleC07_5(c *Ctx) {
 		return
 	}
 	c.Pass("C07.5", "origin-test", desc, dl...)
+}
+
+// instrDominates: a is executed before b on every path that reaches b (same block: a earlier; else block dominance).
+func instrDominates(a, b ssa.Instruction) bool {
+	if a.Block() == b.Block() {
+		for _, in := range a.Block().Instrs {
+			if in == a {
+				return true
+			}
+			if in == b {
+				return false
+			}
+		}
+		return false
+	}
+	return a.Block().Dominates(b.Block())
 }
